@@ -42,6 +42,38 @@ func (ex *Exec) envFor(fr *Frame, st *State) *Env {
 				}
 			}
 		}
+		// source-level names of locals (debug references)
+		for name, sv := range fr.names {
+			if _, shadow := env.vars[name]; shadow {
+				continue
+			}
+			var v Val
+			switch x := sv.(type) {
+			case *ssa.Const:
+				v = ex.constVal(x)
+			default:
+				r, ok := fr.regs[sv]
+				if !ok {
+					continue
+				}
+				v = r
+			}
+			if v.Fn != nil || v.Store != "" || v.Tup != nil {
+				continue
+			}
+			if v.P != nil && (v.P.Cell == nil || v.P.Unknown) {
+				continue
+			}
+			if v.P != nil {
+				if _, live := st.cells[v.P.Cell]; !live {
+					continue
+				}
+			}
+			func() {
+				defer func() { recover() }()
+				env.vars[name] = ex.valTV(v, sv.Type(), st)
+			}()
+		}
 		// named locals that live in cells
 		for val, r := range fr.regs {
 			if a, ok := val.(*ssa.Alloc); ok && a.Comment != "" && r.P != nil && r.P.Cell != nil {
